@@ -177,7 +177,7 @@ func basicConfigs() []cfgDoc {
 		{"empty", ""},
 		{"default", string(def)},
 		{"unrelated", "[some_unknown_section]\nx = 1\n[CABFBaselineRequirementsConfig]\n[Global]\n"},
-		{"options", "[e_rsa_fermat_factorization]\nRounds = 3\n[w_subject_contains_html_entities]\nSkip = true\n[e_crl_next_update_invalid]\nSubscriberCRL = false\n"},
+		{"options", "[e_rsa_fermat_factorization]\nRounds = 3\n[e_subj_contains_html_entities]\nSkip = true\n[e_crl_next_update_invalid]\nSubscriberCRL = false\n"},
 		{"illtyped", "[e_rsa_fermat_factorization]\nRounds = \"many\"\n[e_crl_next_update_invalid]\nSubscriberCRL = 7\n"},
 		{"scalar", "e_rsa_fermat_factorization = 7\ne_crl_next_update_invalid = 5\n"},
 	}
